@@ -53,7 +53,7 @@ def ob_publish(chk, ir):
                             pin(r'awsCertIssuer\.params\.FailureWriter$', FuncV('verif.failureWriter')), pin(r'awsCertIssuer\.params\.AccountIdValidator$', FuncV('verif.accountOK')),
                             pin(r'awsCertIssuer\.params\.CertificateGenerator$', lambda ex, st, tid, name: FuncV(gen + '$bound', [st.aux['stateptr']])))
         try:
-            H, st, state, w, r, path = sweep.mkrun(ir, rt, budget_s=150, extra=extra, max_paths=30000)
+            H, st, state, w, r, path = sweep.mkrun(ir, rt, budget_s=450, extra=extra, max_paths=30000)
             st.aux['stateptr'] = state
             paths = H.run(h, st, [state, w, r])
         except Unsupported as e:
